@@ -391,13 +391,14 @@ pub fn main(args: &[String]) {
             // are NOT already normalized, so that no fast path hides the normalizer
             let reps: [u32; 10] = [0x301, 0x308, 0x323, 0x5b8, 0x64e, 0x94d, 0x3099, 0x20, 0xa0, 0x200d];
             let prefixes: [&str; 4] = ["a", "\u{2163}a", "Z", "\u{ff21}\u{e9}"];
-            let suffixes: [&str; 3] = ["", " \u{ff21}", "\u{3000}"];
+            let suffixes: [&str; 5] = ["", " \u{ff21}", "\u{3000}", "b", "b c"];
             for c in reps.iter() {
-                for n in [29usize, 30, 31, 32, 33, 64] {
-                    let pre = *rng.pick(&prefixes);
-                    let suf = *rng.pick(&suffixes);
-                    let s = format!("{}{}{}", pre, std::iter::repeat(char::from_u32(*c).unwrap()).take(n).collect::<String>(), suf);
-                    rec.exercise(&mut rng, &s, per_string, &kinds, &profiles);
+                for n in [5usize, 8, 9, 15, 16, 17, 29, 30, 31, 32, 33, 64, 65] {
+                    // every count with an all-ASCII frame and with a randomly chosen frame
+                    for (pre, suf) in [("a", "b"), (*rng.pick(&prefixes), *rng.pick(&suffixes))] {
+                        let s = format!("{}{}{}", pre, std::iter::repeat(char::from_u32(*c).unwrap()).take(n).collect::<String>(), suf);
+                        rec.exercise(&mut rng, &s, per_string, &kinds, &profiles);
+                    }
                 }
             }
         }
